@@ -87,6 +87,37 @@ func c19Equal(a, b []c19Rule) (bool, string) {
 	return true, ""
 }
 
+// embeddedDupKeyOnly: class predicate of the known finding C19-embedded-dup-key-line: expected and found rules differ
+// ONLY in error lines, and every differing error line is exactly the expected one minus the embedding offset that
+// validateStringMap forgets to add for "duplicated labels/annotations key" (it reports key.Line, not key.Line+offsetLine).
+// The embedding offset is the line of the literal scalar; dl (total shift) = inner wrapper shift + that line, so the
+// found line must be the expected one minus dl (dl = line of the literal scalar in the outer document).
+func embeddedDupKeyOnly(want, got []c19Rule, dl int) bool {
+	if len(want) != len(got) {
+		return false
+	}
+	differs := false
+	for i := range want {
+		a, b := want[i], got[i]
+		if a.Err != b.Err {
+			// an error rule whose error line lacks exactly the embedding offset; for this error the rule's own line
+			// range (rangeFromYamlMaps) lacks it too
+			if a.Err == 0 || b.Err == 0 || a.Err-b.Err != dl {
+				return false
+			}
+			if !(a.First == b.First && a.Last == b.Last) && !(a.First-b.First == dl && a.Last-b.Last == dl) {
+				return false
+			}
+			differs = true
+			b.Err, b.First, b.Last = a.Err, a.First, a.Last
+		}
+		if fmt.Sprintf("%+v", a) != fmt.Sprintf("%+v", b) {
+			return false
+		}
+	}
+	return differs
+}
+
 func runC19(args []string) int {
 	n := argInt(args, "--n", 300)
 	seed := seedFromEnv()
@@ -183,8 +214,40 @@ func runC19(args []string) int {
 		list := seqLines(items, 0)
 		base := strings.Join(list, "\n") + "\n"
 		levels := r.Intn(5)
-		w := gw.wrap(list, levels)
 		newEnv()
+		if r.Intn(4) == 0 {
+			// (c') YAML in YAML: the wrapped document as the value of a scalar of an outer document
+			w := gw.wrapOpts(list, levels, false)
+			e := gw.embed(w.Text)
+			// reference: the scalar's value parsed as a document of its own (wrapper vs bare list is the other branch)
+			ref := w.Text
+			if e.Literal {
+				ref = e.Value
+			}
+			_, frRef := addForest(ref, "embedded-reference")
+			_, frEmb := addForest(e.Text, "embedded-"+e.Desc)
+			var a []c19Rule
+			if e.Descends {
+				a = c19Shift(c19Rules(frRef), e.LineShift, e.ColShift)
+			}
+			b := c19Rules(frEmb)
+			rep.hist("embedded-oracle:" + e.Desc)
+			if ok, why := c19Equal(a, b); !ok {
+				c := map[string]any{"reference": ref, "embedded": e.Text, "wrapper": w.Desc, "style": e.Desc, "line_shift": e.LineShift,
+					"col_shift": e.ColShift, "expected_rules": a, "found_rules": b}
+				what := "YAML embedded in a " + e.Desc + " scalar: relaxed mode does not report the rules of the embedded list displaced by the wrapper: " + why
+				if !e.Descends {
+					what = "YAML embedded in a " + e.Desc + " scalar (lines not preserved / value too short): relaxed mode must not look inside, but reports rules: " + why
+				}
+				if e.Descends && embeddedDupKeyOnly(a, b, e.LineShift) {
+					rep.failKnown(fmt.Sprint(id), what, c, "C19-embedded-dup-key-line")
+				} else {
+					rep.fail(fmt.Sprint(id), what, c)
+				}
+			}
+			continue
+		}
+		w := gw.wrap(list, levels)
 		_, frBase := addForest(base, "bare-rule-list")
 		_, frWrap := addForest(w.Text, fmt.Sprintf("wrapper-levels-%d", levels))
 		a := c19Shift(c19Rules(frBase), w.LineShift, w.ColShift)
